@@ -1,4 +1,7 @@
 import AcraModel.Envelope.Masking
+import AcraModel.Envelope.MaskLemmas
+import AcraModel.Envelope.ExampleOps
+import AcraModel.Crypto.Box
 /-!
 # C11 — masked columns show only the allowed window to clients that cannot decrypt
 
@@ -38,5 +41,188 @@ theorem mask_write_right (c : CryptoOps) (kv : KeyView) (cfg : MaskCfg) (d rnd e
   unfold maskWrite
   rw [if_neg hp, if_neg (by omega), if_neg (by simp [hl]), he]
   rfl
+
+/-! ## the parts of a masked value
+
+`hiddenPart cfg v` / `windowPart cfg v` (in `Envelope/MaskLemmas.lean`) are the part of `v` that is
+stored protected and the part that stays in clear: for a value longer than the window `cfg.k` the
+window is the first (`left`) resp. last `cfg.k` bytes and the hidden part is the rest; for a value not
+longer than the window everything is hidden and the window is empty. `joinSides cfg w x` puts `x` in
+the place of the hidden part: `w ++ x` for the left window, `x ++ w` for the right one.
+`afterContainer cfg w` are the bytes that follow the container in the stored value (`[]` resp. `w`):
+they matter because `ExtractSerializedContainer` hands the callbacks the whole rest of the buffer. -/
+
+/-- A clear window is *clean* when it contains neither the container tag byte `%` (0x25) nor the
+AcraStruct/AcraBlock tag byte `"` (0x22). The stored form of a masked value is `window | container`
+or `container | window` in ONE column value, and the reader finds the container by scanning for tag
+bytes (in-band signalling). A window that contains tag material can therefore be mis-recognised:
+e.g. a window that starts with `%%%`, a length and an envelope id is itself taken for a container,
+fails to decrypt, and is replaced – together with as many following bytes as it declares – by the
+masking pattern, for the owner too. This is inherent in the format, not a defect of the scan; the
+theorems below are about clean windows. (Only the `%` half is actually used by the proofs: once the
+real container has been recognised the "envelope seen" flag is set and the legacy scans for bare
+AcraStructs/AcraBlocks – the only place where `"` matters – do not run. The lemmas
+`maskRead_owner` / `maskRead_other` / `maskRead_nonOwner` in `Envelope/MaskLemmas.lean` are stated
+with the `%` half only.) -/
+def cleanWindow (w : Bytes) : Prop := ∀ x ∈ w, x ≠ 37 ∧ x ≠ 34
+
+theorem cleanWindow_noPct {w : Bytes} (h : cleanWindow w) : ∀ x ∈ w, x ≠ 37 := fun x hx => (h x hx).1
+
+/-- window and hidden part are a partition of the value -/
+theorem mask_parts (cfg : MaskCfg) (v : Bytes) : joinSides cfg (windowPart cfg v) (hiddenPart cfg v) = v ∧
+    (windowPart cfg v).length ≤ cfg.k ∧
+    (cfg.k < v.length → windowPart cfg v = (if cfg.left then v.take cfg.k else v.drop (v.length - cfg.k)) ∧
+      (windowPart cfg v).length = cfg.k) ∧
+    (v.length ≤ cfg.k → windowPart cfg v = [] ∧ hiddenPart cfg v = v) := by
+  refine ⟨joinSides_parts cfg v, windowPart_length_le cfg v, ?_, fun h => ⟨windowPart_short cfg v h, hiddenPart_short cfg v h⟩⟩
+  intro hk
+  unfold windowPart
+  rw [if_neg (by omega)]
+  refine ⟨rfl, ?_⟩
+  split
+  · rw [List.length_take]; omega
+  · rw [List.length_drop]; omega
+
+/-- **Stored form**: on a masked column a successful write stores the clear window joined with exactly
+what `protect` made of the hidden part, on the configured side (this subsumes `mask_write_left`,
+`mask_write_right` and `mask_short_full`). -/
+theorem mask_write_form (c : CryptoOps) (kv : KeyView) (cfg : MaskCfg) (v rnd stored : Bytes)
+    (hpat : cfg.pattern ≠ []) (hw : maskWrite c kv cfg v rnd = .ok stored) :
+    ∃ p, protect c kv cfg.kind (hiddenPart cfg v) rnd = .ok p ∧ stored = joinSides cfg (windowPart cfg v) p :=
+  maskWrite_ok hpat hw
+
+/-! ## 1. the owning client receives the complete original value -/
+
+/-- **The owner reads the original value** – both window sides, both envelope kinds, values longer
+or not longer than the window. `v` is written by a client with key view `kvW` to a masked column
+(`cfg.pattern ≠ []`) and read by a client with key view `kvR` through the SQL proxy's column
+processor (`maskRead`: compatibility wrapper first, then the decrypt handler over the masking
+processor). Hypotheses: the clear window is clean; the hidden part does not already look like a
+protected value (`protect` would pass it through unchanged and it would be stored in clear); the
+round-trip hypotheses of C01 for the hidden part hold for what `protect` returned – i.e. the
+reader's key list contains the writer's key, possibly after rotations, and earlier keys do not
+accidentally open the value; and the hidden plaintext is not literally equal to the container followed
+by the rest of the stored value (the masking processor treats "decrypted to itself" as "not
+decrypted"; under `SealLen` the container is at least 150 bytes longer than the plaintext, for the
+AcraStruct kind the round-trip hypotheses include `SealLen`). Then the reader receives exactly `v`. -/
+theorem mask_owner (c : CryptoOps) (kvW kvR : KeyView) (cfg : MaskCfg) (v rnd stored : Bytes)
+    (hpat : cfg.pattern ≠ [])
+    (hclean : cleanWindow (windowPart cfg v))
+    (hnm : matchKind cfg.kind (hiddenPart cfg v) = false) (hnr : registryMatch (hiddenPart cfg v) = false)
+    (hrt : ∀ p, protect c kvW cfg.kind (hiddenPart cfg v) rnd = .ok p →
+      RoundTripHyps c cfg.kind kvW kvR (hiddenPart cfg v) rnd p ∧
+      hiddenPart cfg v ≠ p ++ afterContainer cfg (windowPart cfg v))
+    (hw : maskWrite c kvW cfg v rnd = .ok stored) :
+    maskRead c kvR cfg stored = .ok v true := by
+  obtain ⟨p, hp, rfl⟩ := maskWrite_ok hpat hw
+  obtain ⟨h, hne⟩ := hrt p hp
+  obtain ⟨e, rfl, he, hlen, hproc⟩ := protect_roundtrip_facts c cfg.kind kvW kvR _ rnd p h hnm hnr hp
+  rw [maskRead_owner c kvR cfg _ e _ hpat (cleanWindow_noPct hclean) he hlen (hproc _) hne, joinSides_parts]
+
+/-! ## 2. everybody else receives the window and the pattern, nothing more -/
+
+/-- **A reader who cannot decrypt receives exactly the clear window joined with the masking pattern in
+place of the protected part** – no byte of the container (ciphertext, wrapped keys, header) and no
+hidden plaintext byte. `NonOwnerHyps` (in `Envelope/MaskLemmas.lean`): the hidden part does not
+already look protected; `protect` produced the container `p`; the reader's `RegistryHandler.Process`
+does not succeed on `p` followed by the rest of the stored value (no keys, or keys that fail); the
+pattern is not literally that container (automatic for patterns of at most 12 bytes). No crypto law is
+needed. For a value not longer than the window the window is empty and the reader sees the pattern
+alone (`mask_short_other`). -/
+theorem mask_other (c : CryptoOps) (kvW kvR : KeyView) (cfg : MaskCfg) (v rnd p stored : Bytes)
+    (hpat : cfg.pattern ≠ [])
+    (hclean : cleanWindow (windowPart cfg v))
+    (h : NonOwnerHyps c kvW kvR cfg v rnd p)
+    (hw : maskWrite c kvW cfg v rnd = .ok stored) :
+    maskRead c kvR cfg stored = .ok (joinSides cfg (windowPart cfg v) cfg.pattern) true :=
+  maskRead_nonOwner c kvW kvR cfg v rnd p stored hpat (cleanWindow_noPct hclean) h hw
+
+/-- Left window, value longer than the window: the non-owner receives the first `k` bytes followed by
+the pattern. -/
+theorem mask_other_left (c : CryptoOps) (kvW kvR : KeyView) (cfg : MaskCfg) (v rnd p stored : Bytes)
+    (hpat : cfg.pattern ≠ []) (hk : cfg.k < v.length) (hl : cfg.left = true)
+    (hclean : cleanWindow (v.take cfg.k))
+    (h : NonOwnerHyps c kvW kvR cfg v rnd p)
+    (hw : maskWrite c kvW cfg v rnd = .ok stored) :
+    maskRead c kvR cfg stored = .ok (v.take cfg.k ++ cfg.pattern) true := by
+  have hwp : windowPart cfg v = v.take cfg.k := by
+    unfold windowPart; rw [if_neg (by omega), if_pos hl]
+  have := mask_other c kvW kvR cfg v rnd p stored hpat (by rw [hwp]; exact hclean) h hw
+  rw [this, hwp]
+  unfold joinSides
+  rw [if_pos hl]
+
+/-- Right window, value longer than the window: the non-owner receives the pattern followed by the
+last `k` bytes. -/
+theorem mask_other_right (c : CryptoOps) (kvW kvR : KeyView) (cfg : MaskCfg) (v rnd p stored : Bytes)
+    (hpat : cfg.pattern ≠ []) (hk : cfg.k < v.length) (hl : cfg.left = false)
+    (hclean : cleanWindow (v.drop (v.length - cfg.k)))
+    (h : NonOwnerHyps c kvW kvR cfg v rnd p)
+    (hw : maskWrite c kvW cfg v rnd = .ok stored) :
+    maskRead c kvR cfg stored = .ok (cfg.pattern ++ v.drop (v.length - cfg.k)) true := by
+  have hwp : windowPart cfg v = v.drop (v.length - cfg.k) := by
+    unfold windowPart; rw [if_neg (by omega), if_neg (by simp [hl])]
+  have := mask_other c kvW kvR cfg v rnd p stored hpat (by rw [hwp]; exact hclean) h hw
+  rw [this, hwp]
+  unfold joinSides
+  rw [if_neg (by simp [hl])]
+
+/-! ## 3. non-interference -/
+
+/-- **What a non-owner sees is a function of (window, pattern) only.** Two values with the same clear
+window stored in the same masked column – by any writers, with arbitrary different hidden parts and
+arbitrary randomness, hence with completely different containers – are indistinguishable for a
+reader who can open neither: `maskRead` returns the same result for both. This is the formal content
+of "never any byte of the ciphertext and never a hidden plaintext byte". -/
+theorem mask_noninterference (c : CryptoOps) (kvR : KeyView) (cfg : MaskCfg)
+    (kvW₁ kvW₂ : KeyView) (v₁ v₂ rnd₁ rnd₂ p₁ p₂ stored₁ stored₂ : Bytes)
+    (hpat : cfg.pattern ≠ [])
+    (hwin : windowPart cfg v₁ = windowPart cfg v₂) (hclean : cleanWindow (windowPart cfg v₁))
+    (h₁ : NonOwnerHyps c kvW₁ kvR cfg v₁ rnd₁ p₁) (hw₁ : maskWrite c kvW₁ cfg v₁ rnd₁ = .ok stored₁)
+    (h₂ : NonOwnerHyps c kvW₂ kvR cfg v₂ rnd₂ p₂) (hw₂ : maskWrite c kvW₂ cfg v₂ rnd₂ = .ok stored₂) :
+    maskRead c kvR cfg stored₁ = maskRead c kvR cfg stored₂ := by
+  rw [mask_other c kvW₁ kvR cfg v₁ rnd₁ p₁ stored₁ hpat hclean h₁ hw₁,
+    mask_other c kvW₂ kvR cfg v₂ rnd₂ p₂ stored₂ hpat (by rw [← hwin]; exact hclean) h₂ hw₂, hwin]
+
+/-! ## 4. values not longer than the window -/
+
+/-- **A value not longer than the window is hidden completely**: a non-owner receives exactly the
+masking pattern (see `mask_short_full` for the write side: the whole value goes through `protect`). -/
+theorem mask_short_other (c : CryptoOps) (kvW kvR : KeyView) (cfg : MaskCfg) (v rnd p stored : Bytes)
+    (hpat : cfg.pattern ≠ []) (hk : v.length ≤ cfg.k)
+    (h : NonOwnerHyps c kvW kvR cfg v rnd p)
+    (hw : maskWrite c kvW cfg v rnd = .ok stored) :
+    maskRead c kvR cfg stored = .ok cfg.pattern true := by
+  have hwp := windowPart_short cfg v hk
+  have := mask_other c kvW kvR cfg v rnd p stored hpat (by rw [hwp]; intro x hx; cases hx) h hw
+  rw [this, hwp]
+  unfold joinSides
+  split <;> simp
+
+/-! ## 5. termination, no panic -/
+
+/-- **Reading a masked column never panics** (and terminates: `maskRead` is a total function built
+from the well-founded scans of `Detector.lean`), for every crypto back end, key-store answer,
+masking setting and stored value (shorter than `2^63` bytes – every Go slice is, see C03). -/
+theorem maskRead_no_panic :
+    ∀ (c : CryptoOps) (kv : KeyView) (cfg : MaskCfg) (d : Bytes), d.length < 2^63 → maskRead c kv cfg d ≠ .panic :=
+  maskRead_ne_panic
+
+/-- the name used in the property list -/
+theorem mask_terminates :
+    ∀ (c : CryptoOps) (kv : KeyView) (cfg : MaskCfg) (d : Bytes), d.length < 2^63 → maskRead c kv cfg d ≠ .panic :=
+  maskRead_ne_panic
+
+/-- **Writing to a masked column never panics**, whatever the value (including values that look like
+envelopes already) and the random stream. -/
+theorem maskWrite_no_panic :
+    ∀ (c : CryptoOps) (kv : KeyView) (cfg : MaskCfg) (d rnd : Bytes), maskWrite c kv cfg d rnd ≠ .panic :=
+  maskWrite_ne_panic
+
+/-- Reading a masked column never fails the query either: neither the decrypt handler nor the masking
+processor ever returns an error to the column scan. -/
+theorem maskRead_never_fatal :
+    ∀ (c : CryptoOps) (kv : KeyView) (cfg : MaskCfg) (d : Bytes), maskRead c kv cfg d ≠ .fatal :=
+  maskRead_ne_fatal
 
 end AcraModel.Props.C11
